@@ -36,8 +36,9 @@ type accCount struct {
 
 func Spec() *mon.Spec {
 	return &mon.Spec{
-		ID:    "C01",
-		Level: "exploration",
+		ID:      "C01",
+		RuleAdd: "Later additions (break-drill rounds 4-17, DESIGN.md section 14): the exported MBAPHeader.ProtocolID field is set and must not reach the wire; constructor arguments are sub-slices with sentinel tails and must come back untouched; quantity sweeps at both ends of the address space; every frame Bytes() handed out is kept and re-read after later encodes.",
+		Level:   "exploration",
 		Rule: "every call packet.New<F>Request{TCP,RTU}(args) is recorded; accepted => Bytes() must equal the reference encoder's ADU byte for byte, the request must be legal per the specification's limits and <=260/256 bytes. " +
 			"FC1-4: every quantity 0..65535 x framing x boundary/PRNG address,unit,tid. FC15: every coil count 0..2100 (+ sampled to 70000) with 5 patterns. FC16: every data length 0..520. FC23: every read quantity 0..65535 and every write length 0..520 x boundary read quantities. FC5/6/17: unit/address/value sweeps; all 256 unit ids; boundary tids (thorough: all 65536 for one request per function). " +
 			"distinct key = (fc, framing, quantity or payload length, accepted?); rejected calls count as evaluations but only accepted ones and boundary rejections are non-trivial.",
